@@ -406,6 +406,28 @@ func execC06(ci any) (r hx.Result) {
 			}
 		}
 	}
+	// (2b) the Joliet tree as an independent reader decodes it (UCS-2 names). The statement promises an
+	// independent reader the *primary* tree only, so a difference here is a diagnostic, not a verdict. (On the
+	// pinned tree the directory records of the Joliet tree point to the primary tree's directory extents below the
+	// first level - the library's own reader goes through the path table and never follows them.)
+	if f.Iso.Joliet && rep.HasJoliet {
+		byJ := map[string]bool{}
+		for _, x := range rep.JolietFiles {
+			byJ[x.Path] = true
+		}
+		diff := 0
+		for _, e := range f.Tree {
+			if !byJ[e.Path] && e.Kind != mk.KLink {
+				diff++
+			}
+		}
+		if diff > 0 {
+			r.Class("joliet-independent:differs")
+			r.Note("an independent reader of the Joliet tree does not find %d of the source paths (outside the statement: it names the primary tree)", diff)
+		} else {
+			r.Class("joliet-independent:agrees")
+		}
+	}
 	// (3) the Rock Ridge view of an independent reader: exact names, kinds, sizes, contents and link targets
 	if f.Iso.RockRidge {
 		for _, dg := range rep.RRDiag {
